@@ -73,7 +73,7 @@ theorem decodeHead_head (m n : Nat) (rest : Bytes) (hm : m < 8) (hn : n < 184467
           simp [ht, hb]
           omega
         · refine ⟨27, ?_, by omega⟩
-          simp only [h1, h2, h3, h4, if_true, if_false, List.cons_append, decodeHead]
+          simp only [h1, h2, h3, h4, if_false, List.cons_append, decodeHead]
           rw [u8_toNat_ofNat _ (by omega)]
           have e1 : (m * 32 + 27) / 32 = m := by omega
           have e2 : (m * 32 + 27) % 32 = 27 := by omega
@@ -82,5 +82,110 @@ theorem decodeHead_head (m n : Nat) (rest : Bytes) (hm : m < 8) (hn : n < 184467
           have hb := fromBE_be 8 n
           simp [ht, hb]
           omega
+
+
+theorem decode_succ (fuel : Nat) (bs : Bytes) (major ai n : Nat) (rest : Bytes)
+    (h : decodeHead bs = some (major, ai, n, rest)) :
+    decode (fuel + 1) bs =
+      (if major = 0 then some (.uint n, rest)
+      else if major = 1 then some (.nint n, rest)
+      else if major = 2 then
+        match takeN n rest with
+        | some (s, r) => some (.bytes s, r)
+        | none => none
+      else if major = 3 then
+        match takeN n rest with
+        | some (s, r) => some (.text s, r)
+        | none => none
+      else if major = 4 then
+        match decodeList fuel n rest with
+        | some (xs, r) => some (.array xs, r)
+        | none => none
+      else if major = 5 then
+        match decodePairs fuel n rest with
+        | some (kvs, r) => some (.map kvs, r)
+        | none => none
+      else if major = 6 then
+        match decode fuel rest with
+        | some (v, r) => some (.tag n v, r)
+        | none => none
+      else
+        if ai < 24 then some (.simple n, rest) else none) := by
+  simp only [decode, h]
+
+mutual
+theorem decode_encode : ∀ (v : Cbor) (fuel : Nat) (rest : Bytes), v.wf = true → v.size ≤ fuel →
+    decode fuel (v.encode ++ rest) = some (v, rest)
+  | .uint n, fuel, rest, hwf, hf => by
+    simp [Cbor.wf] at hwf
+    simp [Cbor.size] at hf
+    obtain ⟨f, rfl⟩ : ∃ f, fuel = f + 1 := ⟨fuel - 1, by omega⟩
+    obtain ⟨ai, hd, _⟩ := decodeHead_head 0 n rest (by omega) hwf
+    rw [Cbor.encode, decode_succ _ _ _ _ _ _ hd]; simp
+  | .nint n, fuel, rest, hwf, hf => by
+    simp [Cbor.wf] at hwf
+    simp [Cbor.size] at hf
+    obtain ⟨f, rfl⟩ : ∃ f, fuel = f + 1 := ⟨fuel - 1, by omega⟩
+    obtain ⟨ai, hd, _⟩ := decodeHead_head 1 n rest (by omega) hwf
+    rw [Cbor.encode, decode_succ _ _ _ _ _ _ hd]; simp
+  | .bytes b, fuel, rest, hwf, hf => by
+    simp [Cbor.wf] at hwf
+    simp [Cbor.size] at hf
+    obtain ⟨f, rfl⟩ : ∃ f, fuel = f + 1 := ⟨fuel - 1, by omega⟩
+    obtain ⟨ai, hd, _⟩ := decodeHead_head 2 b.length (b ++ rest) (by omega) hwf
+    rw [Cbor.encode, List.append_assoc, decode_succ _ _ _ _ _ _ hd]; simp [takeN_append]
+  | .text b, fuel, rest, hwf, hf => by
+    simp [Cbor.wf] at hwf
+    simp [Cbor.size] at hf
+    obtain ⟨f, rfl⟩ : ∃ f, fuel = f + 1 := ⟨fuel - 1, by omega⟩
+    obtain ⟨ai, hd, _⟩ := decodeHead_head 3 b.length (b ++ rest) (by omega) hwf
+    rw [Cbor.encode, List.append_assoc, decode_succ _ _ _ _ _ _ hd]; simp [takeN_append]
+  | .array xs, fuel, rest, hwf, hf => by
+    simp [Cbor.wf] at hwf
+    simp [Cbor.size] at hf
+    obtain ⟨f, rfl⟩ : ∃ f, fuel = f + 1 := ⟨fuel - 1, by omega⟩
+    obtain ⟨ai, hd, _⟩ := decodeHead_head 4 xs.length (encodeList xs ++ rest) (by omega) hwf.1
+    rw [Cbor.encode, List.append_assoc, decode_succ _ _ _ _ _ _ hd]
+    simp [decodeList_encode xs f rest hwf.2 (by omega)]
+  | .map kvs, fuel, rest, hwf, hf => by
+    simp [Cbor.wf] at hwf
+    simp [Cbor.size] at hf
+    obtain ⟨f, rfl⟩ : ∃ f, fuel = f + 1 := ⟨fuel - 1, by omega⟩
+    obtain ⟨ai, hd, _⟩ := decodeHead_head 5 kvs.length (encodePairs kvs ++ rest) (by omega) hwf.1
+    rw [Cbor.encode, List.append_assoc, decode_succ _ _ _ _ _ _ hd]
+    simp [decodePairs_encode kvs f rest hwf.2 (by omega)]
+  | .tag t v, fuel, rest, hwf, hf => by
+    simp [Cbor.wf] at hwf
+    simp [Cbor.size] at hf
+    obtain ⟨f, rfl⟩ : ∃ f, fuel = f + 1 := ⟨fuel - 1, by omega⟩
+    obtain ⟨ai, hd, _⟩ := decodeHead_head 6 t (v.encode ++ rest) (by omega) hwf.1
+    rw [Cbor.encode, List.append_assoc, decode_succ _ _ _ _ _ _ hd]
+    simp [decode_encode v f rest hwf.2 (by omega)]
+  | .simple n, fuel, rest, hwf, hf => by
+    simp [Cbor.wf] at hwf
+    simp [Cbor.size] at hf
+    obtain ⟨f, rfl⟩ : ∃ f, fuel = f + 1 := ⟨fuel - 1, by omega⟩
+    obtain ⟨ai, hd, hai⟩ := decodeHead_head 7 n rest (by omega) (by omega)
+    rw [Cbor.encode, decode_succ _ _ _ _ _ _ hd]; simp [hai.mpr hwf]
+theorem decodeList_encode : ∀ (xs : List Cbor) (fuel : Nat) (rest : Bytes), wfList xs = true → sizeList xs ≤ fuel →
+    decodeList fuel xs.length (encodeList xs ++ rest) = some (xs, rest)
+  | [], fuel, rest, _, _ => by cases fuel <;> simp [decodeList, encodeList]
+  | x :: xs, fuel, rest, hwf, hf => by
+    simp [wfList] at hwf
+    simp [sizeList] at hf
+    obtain ⟨f, rfl⟩ : ∃ f, fuel = f + 1 := ⟨fuel - 1, by omega⟩
+    simp only [List.length_cons, encodeList, List.append_assoc, decodeList]
+    simp only [decode_encode x f _ hwf.1 (by omega), decodeList_encode xs f rest hwf.2 (by omega)]
+theorem decodePairs_encode : ∀ (kvs : List (Cbor × Cbor)) (fuel : Nat) (rest : Bytes), wfPairs kvs = true →
+    sizePairs kvs ≤ fuel → decodePairs fuel kvs.length (encodePairs kvs ++ rest) = some (kvs, rest)
+  | [], fuel, rest, _, _ => by cases fuel <;> simp [decodePairs, encodePairs]
+  | (k, v) :: kvs, fuel, rest, hwf, hf => by
+    simp [wfPairs] at hwf
+    simp [sizePairs] at hf
+    obtain ⟨f, rfl⟩ : ∃ f, fuel = f + 1 := ⟨fuel - 1, by omega⟩
+    simp only [List.length_cons, encodePairs, List.append_assoc, decodePairs]
+    simp only [decode_encode k f _ hwf.1 (by omega), decode_encode v f _ hwf.2.1 (by omega),
+      decodePairs_encode kvs f rest hwf.2.2 (by omega)]
+end
 
 end Juno.C07
